@@ -69,6 +69,7 @@ PROPS = {
     claim="Proof that pairwise broadcast_shape is sound and complete w.r.t. NumPy's rule (value exactly when all right-aligned pairs are equal-or-1, then the per-axis maximum) for all rank pairs up to 3x3 (thorough 4x4) and every extent - hence order independent -, idempotent, None-neutral, that the variadic form is the left fold of the pairwise rule, (c06e_assoc_enum, exhaustive: every triple of shapes of rank 1..2 with extents 1..3 held in fixed arrays) three shapes broadcast exactly when all extents per aligned axis are equal or 1, to the per-axis maximum, independently of grouping and of the operand order (all six), and broadcasting the result with an operand or with itself changes nothing, and for view::broadcast_to (source ranks 1..3 into target ranks 1..3, every stretch pattern): value exactly when each source extent is 1 or equals the right-aligned target extent, shape = target, source index inside the source shape, stretched axes read source index 0 (kept axes: proved for rank-1 sources only); associativity is decided for those triples only. (E1, constant small shapes with symbolic integer elements) view::broadcast_to and view::broadcast_arrays have the requested / common shape and read, at every index, the source element with stretched axes at 0 and prepended axes dropped; the binary ufunc view reads its operands the same way. The same view-level obligations are also decided on fixed-dimension arrays whose shape is a RUN-TIME value (std::array<size_t,R> shape pinned to the listed extents by ASSUME): the library's run-time branches (loops over len(shape), maybe-typed results that must have a value).",
     note=E1_NOTE,
     technique=E1_TECH,
+    e3=[dict(group="C06")],
     e1=[dict(tu="c06_broadcast.cpp"), dict(tu="c06b_broadcast_to.cpp"), dict(tu="c07_outer_misc.cpp"), dict(tu="c06c_bcastview.cpp"), dict(tu="c07b_bcast.cpp"), dict(tu="c06c_bcastview_rt.cpp"), dict(tu="c07b_bcast_rt.cpp"), dict(tu="c06e_assoc_enum.cpp", flags=["-DC06E_RA=1"]), dict(tu="c06e_assoc_enum.cpp", flags=["-DC06E_RA=2"])],
     e2=[dict(rule="R-PARAMUSE"), dict(rule="R-CONSTBRANCH", anchors=True), dict(rule="R-MAYBE.broadcast"), dict(rule="R-STICKYFAIL")],
     rule=E1_RULE,
